@@ -236,7 +236,8 @@ func genSet(r *rand.Rand, withErrors bool, pal palette) ([]modSrc, genStats) {
 				}
 			}
 			if withErrors && i == 0 && c == 0 {
-				b.WriteString("    leaf bad0 { type nosuchtype; }\n    leaf bad1 { type p0:alsonot; }\n")
+				// bad2 collects three errors on one leaf entry (unknown type, config, mandatory)
+				b.WriteString("    leaf bad0 { type nosuchtype; }\n    leaf bad1 { type p0:alsonot; }\n    leaf bad2 { type nosuchtype; config maybe; mandatory perhaps; }\n")
 			}
 			b.WriteString("  }\n")
 		}
@@ -487,6 +488,11 @@ func script(ms *yang.Modules, roots map[string]*yang.Entry, r *rand.Rand) (nsFir
 		nsFirst = append(nsFirst, op{Kind: "im", Mod: n.mod, Path: n.path})
 		rest = append(rest, op{Kind: "ns", Mod: n.mod, Path: n.path}, op{Kind: "ro", Mod: n.mod, Path: n.path},
 			op{Kind: "dv", Mod: n.mod, Path: n.path})
+		if len(n.e.Errors) > 0 || len(n.path)%3 == 1 {
+			// the error accessor on inner nodes and leaves too, in particular on every node
+			// that holds errors of its own
+			rest = append(rest, op{Kind: "errs-at", Mod: n.mod, Path: n.path})
+		}
 		if len(n.path) == 0 {
 			continue
 		}
@@ -576,6 +582,13 @@ func run(ms *yang.Modules, roots map[string]*yang.Entry, o op) string {
 		case "im":
 			s, err := e.InstantiatingModule()
 			return fmt.Sprintf("%s/%v", s, err != nil)
+		case "errs-at":
+			// the order is part of the answer here (GetErrors sorts)
+			var es []string
+			for _, err := range e.GetErrors() {
+				es = append(es, err.Error())
+			}
+			return fmt.Sprintf("%q", es)
 		case "ns":
 			return e.Namespace().Name
 		case "ro":
